@@ -963,6 +963,7 @@ func runC12Cases(dir string, cases []c12Case, workers int) (map[int]c12Result, e
 			defer wg.Done()
 			wdir := filepath.Join(dir, fmt.Sprintf("w%d", w))
 			_ = os.MkdirAll(wdir, 0o755)
+			hangs := 0
 			for round := 0; len(todo) > 0; round++ {
 				in := filepath.Join(wdir, fmt.Sprintf("in%d.json", round))
 				out := filepath.Join(wdir, fmt.Sprintf("out%d.jsonl", round))
@@ -1046,6 +1047,17 @@ func runC12Cases(dir string, cases []c12Case, workers int) (map[int]c12Result, e
 				res[rest[0].ID] = c12Result{Died: true, Stderr: tail}
 				mu.Unlock()
 				todo = rest[1:]
+				if hung {
+					hangs++
+					if hangs >= 2 { // the writer hangs again and again: the cases left to this worker are not run (two minutes each)
+						mu.Lock()
+						for _, k := range todo {
+							res[k.ID] = c12Result{Died: true, Stderr: "[harness] not run: the writer hung twice in this worker before (see the first such case)"}
+						}
+						mu.Unlock()
+						todo = nil
+					}
+				}
 			}
 		}(w, mine)
 	}
